@@ -150,6 +150,7 @@ struct Obj {
   bool is_tls;
   char *init_data;
   Relocation *rel;
+  Obj *owner; // The function a static local variable or literal belongs to
 
   // Function
   bool is_inline;
